@@ -36,6 +36,9 @@ pub enum K {
     Diverge, // macro: two replicas edit and commit concurrently, then one learns the other's work
     Trickle, // macro: every item a replica lacks is delivered one file at a time, refresh after each
     Echo, // macro: a replica that holds another's packs (but not its blocks) commits the same content, then a third learns its blocks only
+    StageSave,
+    StageRestore,
+    TravelRedo, // macro: a pack-less commit, time travel to its parents, the identical change committed again
     Rounds, // macro: several rounds of "everyone edits and commits, then everyone exchanges with everyone" (blocks with 3+ parents)
     Burst, // macro: a long run of successive small edits of the same objects (revision indices >= 10, >= 100)
     SameEdit,
@@ -132,6 +135,8 @@ pub fn profile_for(prop: &str, variant: u64) -> Profile {
         "C04" => {
             p.name = "read-after-update";
             p.replicas = (1, 3);
+            w[K::StageSave as usize] = 3;
+            w[K::StageRestore as usize] = 4;
             w[K::Update as usize] = 40;
             w[K::EditCommit as usize] = 10;
             w[K::Read as usize] = 2;
@@ -167,6 +172,9 @@ pub fn profile_for(prop: &str, variant: u64) -> Profile {
         "C08" => {
             p.name = "returns";
             w[K::Read as usize] = 6;
+            w[K::TravelRedo as usize] = 3;
+            w[K::StageSave as usize] = 2;
+            w[K::StageRestore as usize] = 3;
             w[K::Diverge as usize] = 20;
             w[K::Resolve as usize] = 8;
             w[K::Snapshot as usize] = 5;
@@ -225,6 +233,8 @@ pub fn profile_for(prop: &str, variant: u64) -> Profile {
         "C13" => {
             p.name = "commit-graph";
             w[K::Rounds as usize] = 2;
+            w[K::TravelRedo as usize] = 5;
+            w[K::ObjOp as usize] = 3;
             w[K::ReloadUntil as usize] = 4;
             w[K::Reload as usize] = 4;
             p.len = (8, 50);
@@ -241,6 +251,10 @@ pub fn profile_for(prop: &str, variant: u64) -> Profile {
         "C15" => {
             p.name = "staging";
             p.replicas = (1, 3);
+            w[K::StageSave as usize] = 6;
+            w[K::StageRestore as usize] = 8;
+            w[K::Burst as usize] = 3;
+            w[K::Exchange as usize] = 16;
             w[K::Update as usize] = 30;
             w[K::Unstage as usize] = 10;
             w[K::RoundTrip as usize] = 10;
@@ -563,6 +577,11 @@ impl Gen {
             x if x == K::ObjOp as usize => {
                 let kind = self.rng.below(3) as u8;
                 let mut f = serde_json::Map::new();
+                if w.cfg.prop == "C19" && self.rng.chance(1, 4) {
+                    // a character-code object: its digest is the code itself (upper and lower case hex)
+                    f.insert("#".to_string(), Value::from(*self.rng.pick(&["4A", "ff", "0041", "1F600", "e9", "AbCd12", "7"])));
+                    return vec![Op::ObjOp { r, kind: 0, id_sel: self.rng.next() as u32, fields: Value::Object(f) }];
+                }
                 f.insert("v".to_string(), docgen::scalar(&mut self.rng, &cfg));
                 if self.rng.chance(1, 2) {
                     f.insert("name".to_string(), docgen::value(&mut self.rng, &cfg, 0));
@@ -726,6 +745,33 @@ impl Gen {
                     v
                 }
             }
+            x if x == K::StageSave as usize => vec![Op::StageSave { r, keep: self.rng.chance(1, 3) }],
+            x if x == K::StageRestore as usize => vec![Op::StageRestore { r }],
+            x if x == K::TravelRedo as usize => {
+                if w.replicas[r].time_travel {
+                    vec![Op::Reload { r }]
+                } else {
+                    let mut v = vec![];
+                    if self.staging(w, r) {
+                        v.push(Op::Commit { r, info: None });
+                    }
+                    let info = commit_info(&mut self.rng, &cfg);
+                    let id_sel = self.rng.next() as u32;
+                    let kind = if self.rng.chance(3, 4) { 1 } else { 0 };
+                    let fields = json!({"v": self.rng.below(5)});
+                    // a commit that needs no new pack (a deletion, or content that may be stored already) ...
+                    v.push(Op::ObjOp { r, kind, id_sel, fields: fields.clone() });
+                    v.push(Op::Commit { r, info: info.clone() });
+                    // ... travel to its parents (the second newest head set), make the identical change again
+                    v.push(Op::ReloadUntil { r, sel: u32::MAX - 1 });
+                    v.push(Op::ObjOp { r, kind, id_sel, fields });
+                    v.push(Op::Commit { r, info });
+                    v.push(Op::ObjOp { r, kind: 0, id_sel: self.rng.next() as u32, fields: json!({"v": "after"}) });
+                    v.push(Op::Commit { r, info: None });
+                    v.push(Op::Reload { r });
+                    v
+                }
+            }
             x if x == K::SameEdit as usize => {
                 if n < 2 {
                     vec![]
@@ -755,6 +801,10 @@ impl Gen {
                             }
                         }
                         v.push(Op::Update { r, doc: doc.clone(), twice: false });
+                        if self.w[K::RoundTrip as usize] > 0 && self.rng.chance(1, 5) {
+                            // long uncommitted chains exported, discarded and replayed (indices across 9 -> 10 -> 11)
+                            v.push(Op::StageRoundTrip { r });
+                        }
                         if self.rng.chance(1, 25) {
                             v.push(Op::Commit { r, info: None });
                         }
